@@ -133,6 +133,12 @@ def derivative_check(t, case, setting, labels):
         return softmax_check(t, x)
     h = tc.pow2(pts["loc"] * 1e-3)
     ok = fd_mask(cls, case, pts, h) & (h > 0)
+    # the stencil nodes x +- h, x +- 2h must be (nearly) representable: when
+    # the step is within 2^20 units in the last place of x the nodes are
+    # rounded by up to 1e-6 of the step and the quotient measures that
+    # rounding, not the derivative (x just below a power of two with
+    # x - nu tiny; see DESIGN 7.3)
+    ok = ok & (h >= 2.0**20 * np.spacing(np.abs(x) + 2 * h))
     # jacobian positive and finite on the whole domain
     j_all = np.asarray(t.jacobian(x.copy()), dtype=np.float64)
     if j_all.shape != x.shape:
